@@ -272,6 +272,8 @@ class Run(object):
         self.pc = []
         self.derived = set()         # indices in pc of facts that were proved (asserted then assumed)
         self.seq = 0                 # ordinal of the next obligation on this path
+        self.solver = None
+        self.n_added = 0
         self.new_prefixes = []
 
 
@@ -399,11 +401,17 @@ class Engine(object):
         self.run.pc.append(e)
 
     # ---------------------------------------------------------------- branching
-    def feasible(self, hyps):
+    def feasible(self, hyps, extra=None):
+        """is pc (+ extra) satisfiable?  'unknown' counts as feasible.  Quantified hypotheses are left out
+        (fewer hypotheses: a sound over-approximation of feasibility).  A fresh solver per query: z3's
+        incremental mode was measured to be 6x slower on these formulas."""
+        from .discharge import has_quantifier
         t0 = time.time()
         s = z3.Solver()
         s.set("timeout", self.feas_timeout_ms)
-        s.add(*hyps)
+        s.add(*[h for h in hyps if not has_quantifier(h)])
+        if extra is not None:
+            s.add(extra)
         r = s.check()
         self.stats["feas_checks"] += 1
         self.stats["feas_time"] += time.time() - t0
@@ -426,8 +434,8 @@ class Engine(object):
         if run.pos < len(run.prefix):
             ch = run.prefix[run.pos]
         else:
-            t = self.feasible(run.pc + [c])
-            f = self.feasible(run.pc + [z3.Not(c)])
+            t = self.feasible(run.pc, c)
+            f = self.feasible(run.pc, z3.Not(c)) if t else True
             if t and f:
                 run.new_prefixes.append(run.trace + [False])
                 ch = True
@@ -668,9 +676,10 @@ class Engine(object):
     def valid(self, e):
         """is e valid under the current path condition? (used for side conditions; sound: only 'unsat' counts)"""
         self.drain()
+        from .discharge import has_quantifier
         s = z3.Solver()
         s.set("timeout", 2000)
-        s.add(*self.run.pc)
+        s.add(*[h for h in self.run.pc if not has_quantifier(h)])   # validity from fewer hypotheses is still validity
         s.add(z3.Not(e))
         return s.check() == z3.unsat
 
